@@ -2,7 +2,7 @@
 """Runs every seeded change in /verif/seeded against the quick check of the property it breaks,
 on a scratch git worktree of /repo (never /repo itself), and records which obligations catch it."""
 import json,os,subprocess,sys,re,shutil
-V='/verif'; WT='/tmp/seedrun-wt'
+V=os.path.dirname(os.path.dirname(os.path.abspath(__file__))); WT='/tmp/seedrun-wt'
 only=sys.argv[1:]
 VC=subprocess.run(['git','-C',V,'rev-parse','--short','HEAD'],capture_output=True,text=True).stdout.strip()
 subprocess.run(['git','-C','/repo','worktree','remove','--force',WT],stderr=subprocess.DEVNULL)
@@ -17,7 +17,7 @@ try:
         subprocess.check_call(['git','-C',WT,'checkout','-q','--','.'])
         if subprocess.run(['git','-C',WT,'apply',V+'/seeded/'+d+'/patch.diff']).returncode!=0:
             res[d]={'exit':None,'caught_by':'PATCH DOES NOT APPLY ON CURRENT HEAD'}; continue
-        env=dict(os.environ,VERIF_FAIL_FAST='1',VERIF_REPO=WT,VERIF_EVIDENCE_DIR='/tmp/seedrun-evidence',VERIF_REPLAY_DIR='/tmp/seedrun-replays/'+d)
+        env=dict(os.environ,VERIF_FAIL_FAST='1',VERIF_DIR=V,VERIF_REPO=WT,VERIF_EVIDENCE_DIR='/tmp/seedrun-evidence',VERIF_REPLAY_DIR='/tmp/seedrun-replays/'+d)
         p=subprocess.run([V+'/bin/gosmt','check','--property',prop,'--tier','quick'],env=env,capture_output=True,text=True)
         obs=sorted(set(re.findall(r'^  violated: (\S+) in (\S+)',p.stdout,flags=re.M)))
         caught=', '.join('`%s` (%s)'%(o,h) for o,h in obs) if p.returncode==1 else ('NOT CAUGHT (exit %d)'%p.returncode)
